@@ -479,6 +479,31 @@ class FreshRegistry:
         return Swap()
 
 
+class Hang(Exception):
+    pass
+
+
+class time_limit:
+    """raises Hang inside the block after `sec` seconds (a registry whose
+    generation loop makes no progress would otherwise block the check)"""
+
+    def __init__(self, sec):
+        self.sec = sec
+
+    def __enter__(self):
+        import signal
+
+        def handler(signum, frame):
+            raise Hang(f"no result after {self.sec} s")
+        self.old = signal.signal(signal.SIGALRM, handler)
+        signal.alarm(self.sec)
+
+    def __exit__(self, *a):
+        import signal
+        signal.alarm(0)
+        signal.signal(signal.SIGALRM, self.old)
+
+
 def random_name(rng, malformed=0.03):
     if rng.random() < malformed:
         return rng.choice("xyz") + rng.choice(["", "3"])
@@ -494,7 +519,11 @@ def run_registry(ctx):
     quick = ctx.tier == "quick"
     n_hist = 14 if quick else 80
     cases, info = [], []
+    hangs = 0
     for h in range(n_hist):
+        if hangs >= 2:
+            ctx.note("registry histories stopped after two hanging calls")
+            break
         reg = FreshRegistry()
         inst = reg.inst
         length = rng.choice([5, 20, 60, 120, 200, 200])
@@ -577,7 +606,19 @@ def run_registry(ctx):
                     n = rng.choice([0, 1, 1, 2, 2, 3, 4, 5, 7, 8, 9, 17])
                     kw[name] = n
                     req.append(f"({coq_sort(sp, s)}, {n}%nat)")
-                r = inst.get_generic_indices(**kw)
+                try:
+                    with time_limit(20):
+                        r = inst.get_generic_indices(**kw)
+                except Hang as ex:
+                    ctx.obligation("get_generic_indices terminates", False)
+                    ctx.violation(
+                        f"C08:generic-hangs:{kw}",
+                        f"get_generic_indices: {ex}",
+                        {"kwargs": kw, "history": log[-60:],
+                         "counter": {str(k): inst._counter[k[0]][k[1]]
+                                     for k in SORTS}}, True)
+                    hangs += 1
+                    break
                 out = reg.ret(r)
                 ops.append("OpGeneric " + adcio.coq_list(req))
                 log.append(("generic", dict(kw)))
@@ -680,6 +721,7 @@ def run_substitute(ctx):
     pairs, meta, sc_cases, sc_info = [], [], [], []
     gen_cases, gen_info = [], []
     reg = Indices()
+    hung = False
     for n in range(n_cases):
         term, pools = gen_sc_term(rng)
         if term == 0 or not term.atoms(Index):
@@ -703,6 +745,8 @@ def run_substitute(ctx):
         con, tg = contracted_of(E.sympy, targets)
         for which in ("contracted", "generic"):
             label = f"{which}{n}"
+            if which == "generic" and hung:
+                continue
             snap = None
             try:
                 with Recorder() as rec:
@@ -720,9 +764,19 @@ def run_substitute(ctx):
                             return r
                         reg.get_generic_indices = wrapper
                         try:
-                            out = T.substitute_with_generic(return_sympy=False)
+                            with time_limit(20):
+                                out = T.substitute_with_generic(
+                                    return_sympy=False)
                         finally:
                             del reg.get_generic_indices
+            except Hang as ex:
+                hung = True
+                ctx.obligation("substitute_with_generic terminates", False)
+                ctx.violation(
+                    f"C08:generic-hangs:substitute_with_generic:{term}",
+                    f"substitute_with_generic: {ex} (global registry)",
+                    {"term": str(term), "targets": repr(targets)}, True)
+                continue
             except Exception as ex:
                 ctx.violation(
                     f"C08:substitute-exception:{which}:{term}:{targets}",
@@ -755,6 +809,28 @@ def run_substitute(ctx):
                     "rename exactly the contracted indices",
                     {"term": str(term), "targets": repr(tg),
                      "contracted": repr(con), "renaming": repr(d)}, True)
+            if which == "contracted":
+                # exactly the lowest unused names per (space, spin), checked
+                # directly on the infinite name stream
+                low = True
+                for k in dict.fromkeys(c.space_and_spin for c in con):
+                    new = [ren[c].name for c in con if c.space_and_spin == k
+                           and c in ren]
+                    taken = {x.name for x in tg if x.space_and_spin == k}
+                    base = Indices.base[k[0]]
+                    stream = (b + (str(j) if j else "")
+                              for j in itertools.count() for b in base)
+                    want = list(itertools.islice(
+                        (x for x in stream if x not in taken), len(new)))
+                    low = low and new == want
+                if not ctx.obligation(f"lowest unused names per space and "
+                                      f"spin {label}", low):
+                    ctx.violation(
+                        f"C08:not-lowest:{key}",
+                        "substitute_contracted does not rename to exactly the "
+                        "lowest unused names of each space and spin",
+                        {"term": str(term), "targets": repr(tg),
+                         "contracted": repr(con), "renaming": repr(d)}, True)
             expect = E.sympy.xreplace(ren)
             same = sympy.expand(out.sympy - expect) == 0
             if not ctx.obligation(f"sequential subs = simultaneous renaming "
